@@ -154,6 +154,12 @@ def compound_forms(body_i, body_n, body2_i=None):
                                    [ASG(q, I(7))])]),
         ('where-write-elsewhere-read', [('where', [(C('>', V('ib'), I(2)), [('whole', 'ia', I(0))])], [('whole', 'ib', V('ia'))])]),
         ('do-bound-size-read-elem', [('do', 'i', I(1), FN('size', V('ia')), None, [ASG(q, B('+', q, E('ia', i)))] + body_i, None, None)]),
+        ('raw-write-if-overwrite-else-read', [ASG(V('y'), B('+', x, p)),
+                                              ('if', [(C('>', p, q), [ASG(V('y'), R('2.0'))] + body_n)],
+                                               [ASG(V('x'), B('*', V('y'), R('0.5')))])]),
+        ('raw-write-if-overwrite-elseif-read', [ASG(k, B('+', p, I(1))),
+                                                ('if', [(C('>', p, I(2)), [ASG(k, I(1))]),
+                                                        (C('<', p, I(0)), [ASG(q, B('+', q, k))])], [ASG(q, B('-', q, k))])]),
         ('assoc-alias-write-read', [('assoc', [('a', p)], [ASG(V('a'), B('+', V('a'), I(1))), ASG(q, B('*', p, I(2)))] + body_n)]),
     ]
     return forms
